@@ -430,7 +430,8 @@ use crate::cmp::Scale;
 use crate::engine::{Exec, Violation};
 
 /// Numbers of the plain report (stdout), keyed by line label: a crude but independent reader.
-pub fn report_numbers(stdout: &str) -> BTreeMap<String, Vec<f64>> {
+/// Each number comes with the number of decimals it was printed with.
+pub fn report_numbers(stdout: &str) -> BTreeMap<String, Vec<(f64, usize)>> {
     let mut m = BTreeMap::new();
     let start = stdout.find("** Eficiencia energética").unwrap_or(0);
     let mut section = String::new();
@@ -440,16 +441,17 @@ pub fn report_numbers(stdout: &str) -> BTreeMap<String, Vec<f64>> {
         let mut nums = Vec::new();
         let mut label = String::new();
         let mut tok = String::new();
-        let flush = |tok: &mut String, nums: &mut Vec<f64>, label: &mut String| {
+        let flush = |tok: &mut String, nums: &mut Vec<(f64, usize)>, label: &mut String| {
             if !tok.is_empty() {
                 let t = tok.trim_end_matches(['.', ',']);
                 let numeric_shape = t.chars().any(|c| c.is_ascii_digit())
                     && t.chars().all(|c| c.is_ascii_digit() || matches!(c, '.' | '-' | '+' | 'e' | 'E'));
+                let decimals = t.find('.').map(|p| t.len() - p - 1).unwrap_or(0);
                 match t.parse::<f64>() {
-                    Ok(v) if numeric_shape => nums.push(v),
+                    Ok(v) if numeric_shape => nums.push((v, decimals)),
                     _ => {
                         if t == "NaN" || t == "inf" || t == "-inf" {
-                            nums.push(f64::NAN);
+                            nums.push((f64::NAN, 0));
                         } else {
                             label.push_str(tok);
                             label.push(' ');
@@ -590,15 +592,16 @@ pub fn c10_process_world(ctx: &Ctx, scn: &crate::props::c10::Scn, sc: &Scale, ex
                 ex.count("skipped_ratio_comparisons", 1);
                 continue;
             }
-            for (x, y) in va.iter().zip(vb.iter()) {
+            for ((x, dx), (y, dy)) in va.iter().zip(vb.iter()) {
                 if x.is_nan() && y.is_nan() {
                     continue;
                 }
-                // printed with <= 2 decimals: one unit of the last digit + the rounding tolerance of DESIGN 3.5
+                // one unit of the last printed digit + the rounding tolerance of DESIGN 3.5
+                let unit = 10f64.powi(-(*dx.min(dy) as i32)) * 1.1;
                 let tol = if is_ratio {
-                    0.011 + crate::cmp::ratio_tol(sc.e_an * f, den, va.iter().chain(vb.iter()).fold(0.0f64, |m, v| m.max(v.abs())), 0.0)
+                    unit + crate::cmp::ratio_tol(sc.e_an * f, den, va.iter().chain(vb.iter()).fold(0.0f64, |m, v| m.max(v.0.abs())), 0.0)
                 } else {
-                    0.011 + crate::cmp::C_ABS * crate::cmp::EPS * sc.e_an.max(sc.n_an) * f / sc.area.max(1e-9)
+                    unit + crate::cmp::C_ABS * crate::cmp::EPS * sc.e_an.max(sc.n_an) * f / sc.area.max(1e-9)
                 };
                 if !((x - y).abs() <= tol) {
                     return Some(Violation::new(
